@@ -155,7 +155,7 @@ EDGE_ISO = ["0001-01-01T00:00:00+05:30", "0001-01-01T00:00:00+00:01", "0001-01-0
             "2024-01-01T00:00:00,5Z", "+002024-01-01", "2024-02-30", "2024-01-01T00:00:00+24:00", "2024-01-01T00:00:00-00:00",
             "0000-01-01T00:00:00Z", "10000-01-01T00:00:00Z", "1970-01-01T00:00:00.000000001Z", "2024-01-01t00:00:00z"]
 GRID_OPS = ["==", "!=", "<", "<=", ">", ">=", "contains", "in", "hasAll", "hasAny", "startsWith", "endsWith", "before", "after"]
-BENIGN = {"==": 1, "!=": 1, "<": 1, "<=": 1, ">": 1, ">=": 1, "contains": "a", "in": [1, "a"], "hasAll": [1], "hasAny": [1],
+BENIGN = {"==": 1, "!=": 1, "<": 1, "<=": 1, ">": 1, ">=": 1, "contains": "a", "in": [1, "a"], "hasAll": [1, "a", 2, 3, 4, 5, 6, 7, 8, 9], "hasAny": [7, "a"],
           "startsWith": "a", "endsWith": "a", "before": "2024-06-01T00:00:00Z", "after": "2024-06-01T00:00:00+02:00"}
 
 
@@ -163,7 +163,8 @@ def grid_cases(quick: bool):
     """every operator × every hostile value, as the attribute-resolved LEFT operand, the attribute-resolved RIGHT operand, both, and
     (for JSON-representable values) as a policy literal × lax/strict: the conversions that may raise sit behind specific operators, so a
     random stream reaches a given (operator, value) cell only by luck."""
-    vals = gen.HOSTILE_NUMS + gen.HOSTILE_STRS + EDGE_ISO + [None, True, [], {}, [float("inf")], {"a": 10 ** 400}, [None], "", 0, -0.0]
+    vals = gen.HOSTILE_NUMS + gen.HOSTILE_STRS + EDGE_ISO + [None, True, [], {}, [float("inf")], {"a": 10 ** 400}, [None], "", 0, -0.0,
+                                                                    [[1]], [{"a": 1}], [[1], 2, "a"], [0, 1, 2, 3, 4, 5, 6, 7, 8, 9, [1]], {"k": [1, {"z": None}]}]
     base = {"sid": "u", "roles": [], "sattrs": {}, "action": "read", "rtype": "doc", "rid": "1", "rattrs": {}}
     def pol(cond):
         return {"algorithm": "deny-overrides", "rules": [{"id": "g", "effect": "permit", "actions": ["read"], "resource": {"type": "doc"},
